@@ -170,7 +170,7 @@ func (e *Engine) RunCheck(prop string, timeoutS int, thorough bool, known []Know
 	for _, name := range ledger[prop] {
 		// structural obligations (loop invariants, call-site preconditions) may legitimately
 		// disappear in a refactoring; what must never disappear silently are the clauses themselves
-		if !(strings.Contains(name, "/post#") || strings.Contains(name, "/onlywrites#") || strings.HasPrefix(name, "lemma/")) {
+		if !(strings.Contains(name, "/post#") || strings.Contains(name, "/assert#") || strings.Contains(name, "/onlywrites#") || strings.HasPrefix(name, "lemma/")) {
 			continue
 		}
 		if !have[name] {
